@@ -474,9 +474,89 @@ static void fault_case(const RMat& A, int n, int nev, int ncv, Args args, int nf
     sym::witness("end");
 }
 
+// B-operator of a generalized problem (regular-inverse mode): y = B x and y = B^{-1} x, each can fail
+struct FaultyBOp
+{
+    using Scalar = Real;
+    RMat B, Binv;
+    mutable long calls = 0;
+    mutable bool armed = true;
+    mutable int faults_left = 1;
+    bool fault_in_solve = false;
+    Eigen::Index rows() const { return B.rows(); }
+    Eigen::Index cols() const { return B.cols(); }
+    void maybe_fail(bool is_solve) const
+    {
+        calls++;
+        if (armed && faults_left > 0 && is_solve == fault_in_solve && sym::choose("bfault_at_call_" + std::to_string(calls)))
+        {
+            faults_left--;
+            throw Fault{4711 + (int) calls};
+        }
+    }
+    void perform_op(const Real* x, Real* y) const
+    {
+        maybe_fail(false);
+        Eigen::Map<RVec>(y, B.rows()).noalias() = B * Eigen::Map<const RVec>(x, B.cols());
+    }
+    void solve(const Real* x, Real* y) const
+    {
+        maybe_fail(true);
+        Eigen::Map<RVec>(y, B.rows()).noalias() = Binv * Eigen::Map<const RVec>(x, B.cols());
+    }
+};
+static void bfault_case(bool in_solve)
+{
+    const int n = 6, nev = 2, ncv = 4;
+    RMat A = instance("laplace", n, true);
+    FaultyBOp bop;
+    bop.B = RMat::Zero(n, n);
+    bop.Binv = RMat::Zero(n, n);
+    for (int i = 0; i < n; i++)
+    {
+        bop.B(i, i) = Real(double(1 << (i % 3)));  // diagonal SPD with exactly representable inverse
+        bop.Binv(i, i) = Real(1.0 / double(1 << (i % 3)));
+    }
+    bop.fault_in_solve = in_solve;
+    DenseSymMatProd<Real> op(A);
+    using Solver = SymGEigsSolver<DenseSymMatProd<Real>, FaultyBOp, GEigsMode::RegularInverse>;
+    RVec v0 = start_vector("generic", n);
+    Result fresh;
+    {
+        bop.armed = false;
+        Solver e(op, bop, nev, ncv);
+        e.init(v0.data());
+        long nc = e.compute(SortRule::LargestAlge, 10, Real(1e-10));
+        fresh = collect_herm(e, nc);
+        sym::note("fault-free B applications", std::to_string(bop.calls));
+    }
+    bop.armed = true;
+    bop.calls = 0;
+    bop.faults_left = 1;
+    Solver e(op, bop, nev, ncv);
+    try
+    {
+        e.init(v0.data());
+        e.compute(SortRule::LargestAlge, 10, Real(1e-10));
+    }
+    catch (const Fault& f)
+    {
+        sym::expect("the B-operator's exception propagates unchanged", f.tag == 4711 + (int) bop.calls, "tag " + std::to_string(f.tag));
+        sym::note("B fault at application", std::to_string(bop.calls));
+    }
+    bop.armed = false;
+    e.init(v0.data());
+    long nc = e.compute(SortRule::LargestAlge, 10, Real(1e-10));
+    Result after = collect_herm(e, nc);
+    compare("after the B-operator fault", fresh, after);
+    sym::witness("end");
+}
+
 int main(int argc, char** argv)
 {
     std::vector<sym::Case> cases;
+    cases.push_back({"fault-B/SymGEigsSolver-RegularInverse/product", []() { bfault_case(false); }});
+    cases.push_back({"fault-B/SymGEigsSolver-RegularInverse/solve", []() { bfault_case(true); }});
     const char* kinds[] = {"diag", "laplace", "rank1", "block", "perm", "int"};
     const char* vkinds[] = {"generic", "e0", "ones"};
     for (const char* k : kinds)
